@@ -4,6 +4,7 @@ import WacModel.Spec.Cli
   Driver for C19.  Case kinds (obs = exit, stdout token, ends with newline 0|1, token of stdout
   without that newline, stderr non-empty 0|1, stderr starts with "error" 0|1, output file "-" | F<token>):
 
+    (every kind starts with a <tag> naming the scenario; it is used by --replay only)
     compose <--deps-dir or empty> <nD> (<pkg> <path>)*nD <no-validate> <wat> <import-deps> <-o or empty> <source>
             <deps dir the harness used> <nU> (<pkg> <path>)*nU        the harness's reading of the dependency flags
             <lib TT> <lib TF> <lib FT> <lib FF>                        library result per (define_components, validate): F:<stage> | E:<binary>:<text>
@@ -84,6 +85,7 @@ def sameMap (a b : List (Str × Str)) : Bool :=
   a.all (fun e => amGet b e.1 == some e.2) && b.all (fun e => amGet a e.1 == some e.2)
 
 def judgeCompose : P String := do
+  let _tag ← next
   let depsDir ← next
   let nD ← nextNat
   let deps ← repeatP nD (do
@@ -127,6 +129,7 @@ def judgeCompose : P String := do
   return "ok"
 
 def judgePlug : P String := do
+  let _tag ← next
   let nP ← nextNat
   let plugs ← repeatP nP next
   let socket ← next
@@ -158,6 +161,7 @@ def judgePlug : P String := do
   return "ok"
 
 def judgeTargets : P String := do
+  let _tag ← next
   let component ← next
   let wit ← next
   let world ← next
@@ -183,6 +187,7 @@ def judgeTargets : P String := do
   return "ok"
 
 def judgeParse : P String := do
+  let _tag ← next
   let _path ← next
   let json ← next
   let o ← nextObs
